@@ -120,6 +120,32 @@ func c07Run(sc c07Scenario) string {
 	return ""
 }
 
+// objectChain returns a field path (depth <= 3) to an object inside doc.
+func objectChain(t *rapid.T, doc jv.Val) *ast.Chain {
+	var cs [][]string
+	var walk func(v jv.Val, path []string, depth int)
+	walk = func(v jv.Val, path []string, depth int) {
+		if v.K == jv.Obj && len(path) > 0 {
+			cs = append(cs, append([]string{}, path...))
+		}
+		if v.K == jv.Obj && depth < 3 {
+			for _, m := range v.O {
+				walk(m.V, append(path, m.K), depth+1)
+			}
+		}
+	}
+	walk(doc, nil, 0)
+	if len(cs) == 0 {
+		return nil
+	}
+	p := cs[rapid.IntRange(0, len(cs)-1).Draw(t, "objpath")]
+	c := ast.F(p[0])
+	for _, k := range p[1:] {
+		c = c.With(ast.Step{Kind: ast.SField, Name: k})
+	}
+	return c
+}
+
 func c07CurrentFile() string {
 	return filepath.Join(getenv("VERIF_OUT_DIR", os.TempDir()), fmt.Sprintf("C07-race-s%s-current.json", getenv("VERIF_SHARD", "0")))
 }
@@ -146,6 +172,18 @@ func TestC07_Concurrent(t *testing.T) {
 			switch rapid.IntRange(0, 4).Draw(t, "kind") {
 			case 0:
 				e = ast.Call(gen.Pick(t, "fn", []string{"sort", "reverse", "sort_by", "group_by", "merge", "join", "to_string"}), ast.A(g.Chain(vals[0], 1)))
+				if c, ok := e.(*ast.Chain); ok && c.Head.Name == "merge" {
+					// merge of objects that belong to the shared document and to the shared AST
+					objs := []ast.Expr{ast.Cur(), ast.Lit(jv.VObj([]jv.Member{{K: "zz", V: jv.VInt(1)}}))}
+					if oc := objectChain(t, vals[0]); oc != nil {
+						objs = append(objs, oc, oc)
+					}
+					n := rapid.IntRange(2, 3).Draw(t, "nmerge")
+					c.Head.Args = nil
+					for k := 0; k < n; k++ {
+						c.Head.Args = append(c.Head.Args, ast.A(gen.Pick(t, "mergearg", objs)))
+					}
+				}
 				if c, ok := e.(*ast.Chain); ok && (c.Head.Name == "sort_by" || c.Head.Name == "group_by") {
 					c.Head.Args = append(c.Head.Args, ast.Ref(ast.Call("to_string", ast.A(ast.Cur()))))
 				}
